@@ -3,3 +3,6 @@ import PGProofs.VanLoan
 import PGProofs.Labelled
 import PGProofs.RatesThm
 import PGProofs.Schedule
+import PGProofs.MomentsThm
+import PGProofs.RewardsThm
+import PGProofs.MutConfig
